@@ -447,6 +447,15 @@ def exec_stmt(env, mon, s, guarded):
             mg.matmul(env[tname], bad)
         except Exception:
             pass
+        try:
+            env[tname][(10 ** 6,) * max(1, env[tname].ndim)]      # a kernel that fails with IndexError, not ValueError / TypeError
+        except Exception:
+            pass
+        try:
+            with np.errstate(all="raise"):
+                mg.divide(env[tname], np.zeros(env[tname].shape))  # ... and with FloatingPointError
+        except Exception:
+            pass
         del bad
     elif k == "fail_late":
         _, name, how = s
